@@ -92,12 +92,14 @@ class World:
         self.emit({"op": "new_doc", "as": h}, {})
         return h
 
-    def new_doc_from(self, recs, bundle=False):
-        """ProvDocument(records=[...]) / ProvBundle(records=[...]) built from existing record objects"""
+    def new_doc_from(self, recs, bundle=False, ident=None):
+        """ProvDocument(records=[...]) / ProvBundle(records=[...], identifier=q) built from existing record objects"""
         op = {"op": "new_from", "recs": list(recs), "bundle": bundle}
+        if ident is not None:
+            op["id"] = proto.enc_name(ident)
         try:
             objs = [self.recs[r] for r in recs]
-            d = ProvBundle(records=objs) if bundle else ProvDocument(records=objs)
+            d = ProvBundle(records=objs, identifier=ident) if bundle else ProvDocument(records=objs)
             err = None
         except Exception as e:  # noqa
             d = None
